@@ -49,14 +49,14 @@ IdxSet(p) == {p[i].idx : i \in 1..Len(p)}
 
 (* every slot's agent takes d[s] environment steps (the loop adds what it counted, c[s], to steps[-1]), *)
 (* then one evaluation per agent appends one fitness entry                                              *)
-GenerationC(d, c, sc) ==
+GenBody(d, c, sc) ==
   /\ act \in {"init", "gen", "sel"}
-  /\ ~BudgetMet(pop)                                   \* a generation starts only while the budget is not met
   /\ pop' = [s \in 1..Len(pop) |-> [pop[s] EXCEPT !.steps = @ + c[s], !.truth = @ + d[s],
                                                   !.fitlen = @ + 1, !.score = sc[s]]]
   /\ act' = "gen" /\ gen' = gen + 1
   /\ UNCHANGED <<par, prev, sel, early>>
-Generation(d, sc) == GenerationC(d, d, sc)             \* the counter follows the environment
+GenerationC(d, c, sc) == ~BudgetMet(pop) /\ GenBody(d, c, sc)      \* a generation starts only while the budget is not met
+Generation(d, sc) == GenerationC(d, d, sc)                         \* the counter follows the environment
 
 (* new population of the same size built from copies; ps = parents, ix = indices, same = unchanged copies *)
 SelectMutate(ps, ix, same) ==
@@ -87,8 +87,9 @@ Init == /\ par \in Params
 MaxIdx(p) == CHOOSE m \in IdxSet(p) : \A x \in IdxSet(p) : x <= m
 (* model-checking instance: every d, every score, every parent choice; the code's index rule *)
 MCSelect ==
-  \E ps \in [1..par.k -> 1..Len(pop)] : \E same \in [1..par.k -> BOOLEAN] :
-    LET ix == [j \in 1..par.k |-> IF par.elitism /\ j = 1 THEN pop[ps[1]].idx ELSE MaxIdx(pop) + j] IN
+  \E ps \in [1..par.k -> 1..Len(pop)] : \E s1 \in BOOLEAN :
+    LET same == [j \in 1..par.k |-> j = 1 /\ s1]      \* only member 1's faithfulness matters to the properties
+        ix == [j \in 1..par.k |-> IF par.elitism /\ j = 1 THEN pop[ps[1]].idx ELSE MaxIdx(pop) + j] IN
     SelectMutate(ps, ix, same)
 Next == \/ (gen < MaxGen /\ \E d \in [1..Len(pop) -> Ds] : \E sc \in [1..Len(pop) -> Scores] : Generation(d, sc))
         \/ MCSelect
